@@ -53,7 +53,7 @@ func New(e *sim.Env, kind Kind, c *sim.Case) (*Backend, error) {
 // misconfigured). No effect on the in-memory backend.
 func (b *Backend) SetServerError(msg string) {
 	if b.redis != nil {
-		b.redis.m.SetError(msg)
+		b.redis.refuse = msg
 	}
 }
 
